@@ -150,3 +150,66 @@ SPECS["actor_ref.rs::ActorWeak::identity"] = dict(pure=True, ensures=[
 SPECS["actor_ref.rs::Clone for ActorWeak::clone"] = dict(pure=True, ensures=[
     C("actor_weak.clone.same_actor", "C07 C11", "r.id == self.id && r.sender.chan() == self.sender.chan() && r.terminate_sender.chan() == self.terminate_sender.chan()"),
 ])
+
+
+# ====================================================================== metadata used by ./check
+# feature sets (besides default) a property's quick check needs
+PROPERTY_FEATURES = {
+    "C12": [("deadlock-detection",)], "C14": [("deadlock-detection",)], "C15": [("deadlock-detection",)],
+    "C13": [("test-utils",)], "C20": [("metrics",)],
+    "C04": [("deadlock-detection",)], "C06": [], "C07": [("metrics",)],
+}
+
+# labels that live in shim/glue (preconditions of trusted primitives) -> properties they serve
+EXTRA_LABELS = {
+    "handle_message.pre.scope@dyn": "C14",
+    "handle_message.pre.unlocked@dyn": "C12",
+    "spawn.lifecycle_gets_refs_mailbox": "C01 C02 C09",
+    "spawn.lifecycle_gets_refs_control": "C06",
+    "spawn.lifecycle_distinct_channels": "C06",
+}
+
+# unlabelled verifier failures (overflow, unlabelled shim precondition) inside a function are attributed
+# to the properties the function serves
+FUNCTION_PROPERTIES = {
+    "run_actor_lifecycle": "C01 C02 C04 C05 C06 C07 C08 C12 C14 C20",
+    "handle_message": "C01 C03",
+}
+
+NOT_APPLICABLE = {
+    "C19": "proc-macro token generation (syn/quote) is outside every installed deductive verifier; the runtime half "
+           "(on_tell_result only on tell) is an obligation of handle_message reported under C03",
+}
+
+TRUSTED_BASE = [
+    "shim/prelude.rs: assumed contracts of tokio mpsc/oneshot/time/task, std sync primitives, tracing (A1-A11)",
+    "shim/prelude.rs: Actor/Message hook contracts (user code is arbitrary; it advances the ghost monitor by one event per call)",
+    "contracts/glue.rs: external_body dispatchers for lifted dyn methods and tokio::spawn of the lifecycle",
+    "vx extraction rules R1-R11 (build/<fs>/extraction_report.json shows the diff per function)",
+    "Verus 0.2026.09.13, Z3",
+]
+
+ASSUMPTIONS = [
+    "A1 tokio mpsc bounded channel: linearizable FIFO, send Ok iff enqueued, Err iff receiver closed/dropped, occupancy <= capacity",
+    "A2 cancel safety of mpsc send / oneshot receive; tokio::time::timeout polls the inner future first",
+    "A3 tokio::select!: guards once, textual poll order under `biased;`, random start otherwise, first Ready wins",
+    "A4 tokio sender counting; WeakSender does not keep the channel open",
+    "A5 close-on-drop of receivers and unsent oneshot senders",
+    "A6 Rust move/drop/unwind semantics; implicit drops are invisible except where rule R9 makes them explicit",
+    "A7 tokio task isolation: a panic is confined to its task and surfaces as JoinError",
+    "A8 tokio timer punctuality (not decided by contracts)",
+    "A9 tracing spans / log macros have no effect on control or data flow (dropped by R1/R3)",
+    "A10 atomics are atomic RMWs; machine integers as in Rust (Verus checks overflow in extracted code)",
+    "A11 Instant / SystemTime values are opaque",
+    "A12 extraction rules preserve meaning (async erasure with suspension markers, select! desugaring, World threading)",
+    "A13 Verus and Z3 are sound",
+]
+
+NOT_UNDER_CONTRACT = [
+    "ActorRef::blocking_tell_with_timeout_impl, ActorRef::blocking_ask_with_timeout_impl (std::thread + nested runtime)",
+    "format_cycle_path, Display / debugging_tips / debug_fmt impls",
+    "rsactor-derive (proc-macro crate)",
+    "user hook bodies (arbitrary)",
+]
+
+PROPERTY_NOTES = {}
